@@ -42,6 +42,7 @@ type E2EFile struct {
 type E2EPlay struct {
 	Name   string
 	Cfg    string
+	Actors []string
 	Lines  map[string][]string
 	Expect []E2EFile
 }
@@ -50,6 +51,13 @@ func writeE2E(rng *rand.Rand, dir string, n int) {
 	g := &Gen{R: rng, Modalities: cmd.VerifModalities()}
 	var plays []E2EPlay
 	for i := 0; i < n; i++ {
+		// several actors with a spotlight each, alternately of one role and
+		// of different roles: every actor prints its OWN lines
+		g.MinActors = 2 + i%2
+		g.ForceRoles = 1 + i%2
+		if i%4 == 3 {
+			g.MinActors, g.ForceRoles = 4, 2
+		}
 		c := g.Config()
 		c.Auditor = nil // a disappointed auditor fouls the play: keep the exit status meaningful
 		c.Sentinel = true
@@ -101,15 +109,21 @@ func writeE2E(rng *rand.Rand, dir string, n int) {
 				}
 				data.WriteString("THE-END\n")
 				vh.WriteFile(pdir, a+".txt", data.String())
-				script := "n=0\nwhile IFS= read -r l; do\n  n=$((n+1))\n" +
+				script := "echo start >> " + abs + "/" + a + ".started\n" +
+					"n=0\nwhile IFS= read -r l; do\n  n=$((n+1))\n" +
 					"  if [ $((n%2)) = 0 ]; then printf '%s\\n' \"$l\"; else printf '%s\\n' \"$l\" >&2; fi\n" +
 					"  if [ $((n%5)) = 0 ]; then sleep 0.02; fi\n" +
-					"done < " + abs + "/" + a + ".txt\n"
+					"done < " + abs + "/" + a + ".txt\n" +
+					"touch " + abs + "/" + a + ".done\n"
 				vh.WriteFile(pdir, a+".sh", script)
 			}
 		}
 		// config: every actor gets `with me=<actor>`
-		text := c.Text(spot, "script\n  tempo 100ms\n  scene a entails for "+firstActor+": noop\n  storyline a"+strings.Repeat(".", 38)+"a\nend\n")
+		// the scene `w` waits (at most 10 s) until every spotlight script has
+		// printed all its lines; three more beats let the readers catch up
+		wait := "i=0; while [ $i -lt 100 ]; do ok=1; for f in " + strings.Join(castLines, " ") + "; do [ -e " + abs + "/$f.done ] || ok=0; done; [ $ok = 1 ] && break; i=$((i+1)); sleep 0.1; done"
+		text := c.Text(spot, "script\n  tempo 100ms\n  scene a entails for "+firstActor+": noop\n  scene w entails for "+firstActor+": wait\n  storyline a..w...a\nend\n")
+		text = strings.Replace(text, "  :noop true\n", "  :noop true\n  :wait "+wait+"\n", -1)
 		for _, a := range castLines {
 			r := c.roleOf(a)
 			text = strings.Replace(text, "  "+a+" plays "+r.Name+"\n", "  "+a+" plays "+r.Name+" with me="+a+"\n", 1)
@@ -135,7 +149,7 @@ func writeE2E(rng *rand.Rand, dir string, n int) {
 			}
 			exp = append(exp, ef)
 		}
-		plays = append(plays, E2EPlay{Name: name, Cfg: text, Lines: lines, Expect: exp})
+		plays = append(plays, E2EPlay{Name: name, Cfg: text, Actors: castLines, Lines: lines, Expect: exp})
 	}
 	vh.WriteJSON(dir, "plays.json", plays)
 }
@@ -194,12 +208,29 @@ func checkE2E(dir, out string) {
 			keys = append(keys, k)
 		}
 		complete := true
-		for a := range p.Lines {
+		for _, a := range p.Actors {
 			if !seenEnd[a] {
 				complete = false
 			}
 		}
-		if !complete && run.Exit == 0 {
+		// how often each actor's spotlight script was started (once, says
+		// the property's "an actor's spotlight")
+		starts := map[string]int{}
+		startsOK := true
+		for _, a := range p.Actors {
+			b, _ := ioutil.ReadFile(filepath.Join(pdir, a+".started"))
+			starts[a] = strings.Count(string(b), "\n")
+			if starts[a] != 1 {
+				startsOK = false
+			}
+		}
+		if !startsOK {
+			stats["plays-with-a-spotlight-not-started-exactly-once"]++
+		}
+		if !complete && startsOK && run.Exit == 0 {
+			// every script started once but one did not get to its end (or
+			// its last line was not read) before the play ended: machine
+			// load; says nothing
 			stats["inconclusive-play-cut-short"]++
 			continue
 		}
@@ -275,7 +306,7 @@ func checkE2E(dir, out string) {
 		itemsV = append(itemsV, fmt.Sprintf("{| k_cfg := {| c_members := []; c_watchers := []; c_init := [] |};\n     k_cast := [];\n     k_items := [];\n     k_events := [];\n     k_brackets := [%s];\n     k_files := [%s];\n     k_status := %d;\n     k_nums := [];\n     k_epoch := 0%%Z;\n     k_tslog := [];\n     k_intent := [%s] |}",
 			strings.Join(brV, "; "), strings.Join(fileV, ";\n       "), status, strings.Join(intV, ";\n       ")))
 		cases = append(cases, map[string]interface{}{"name": p.Name, "config": p.Cfg, "lines": p.Lines, "csv": csv,
-			"exit": run.Exit, "wall_s": run.WallS, "output_tail": run.Tail, "expected": p.Expect, "play_start_offset_ns": off})
+			"exit": run.Exit, "wall_s": run.WallS, "output_tail": run.Tail, "expected": p.Expect, "play_start_offset_ns": off, "spotlight_starts": starts})
 		stats["plays"]++
 		stats["csv-rows"] += nRows
 		stats["expected-rows"] += nPoints
